@@ -129,6 +129,53 @@ def rule_b(ck, R):
         ck.verdict(ok, 'C07.b', 'header-crc:%s' % '+'.join(bits), R.where('parse_header'),
                    'encoder and decoder both checksum words [0,6)%s' % (' then the payload-checksum word 7' if 'pl' in bits else '') if ok else
                    'header checksum coverage: encoder %s, decoder %s, specification %s' % (sorted(e_), sorted(d_), sorted(w)))
+    # layout table of the receiver: the optional checksum words are packed behind word 5.  Oracle (doc/regp.txt section 2:
+    # "the existence of the Checksum fields is governed by the option bits"): header checksum at word 6 if present, payload
+    # checksum at word 6 + [header checksum present], payload from word 6 + [hd] + [pl]; the frame must hold that many words.
+    # A necessary condition of the single-bit clause: with the WITH-HEADER-CRC bit flipped off, the receiver takes the header
+    # checksum for the payload checksum and the payload one word early, so the frame fails the size / payload-CRC tests.
+    BUF = ('v', 'buf')
+    rows = {}
+    for p in dec:
+        if p.ret is None or (p.ret[0] == 'c' and p.ret[1] < 0):
+            continue
+        hd = True in [motv_test(c, HD) for c in p.cond_terms()]
+        pl = True in [motv_test(c, PL) for c in p.cond_terms()]
+        pos = {}
+        for e in p.stores():
+            nm = fmt(e.name)
+            for fld_ in ('hdcrc', 'plcrc'):
+                if nm.endswith('header.' + fld_):
+                    v = strip_cast(e.args[0])
+                    if v == C(0):
+                        continue
+                    if v[0] == 'call' and v[1] == 'bf_ref_u16b':
+                        d = L(v[2][0]) - L(BUF)
+                        pos[fld_] = int(d.c) if d.is_const() else fmt(v[2][0])
+                    else:
+                        pos[fld_] = fmt(v)
+        need = None
+        for c in p.cond_terms():
+            if c[0] == 'cmp' and c[1] == '<=' and sym.is_c(c[2]) and c[3] == ('v', 'n'):
+                need = max(need or 0, c[2][1])
+        ret = p.ret[1] if p.ret[0] == 'c' else (None if p.ret[0] != 'cast' or p.ret[2][0] != 'c' else p.ret[2][1])
+        rows.setdefault((hd, pl), set()).add((pos.get('hdcrc'), pos.get('plcrc'), ret, need))
+    bad = None
+    for hd in (False, True):
+        for pl in (False, True):
+            want_row = (6 if hd else None, (6 + int(hd)) if pl else None, 6 + int(hd) + int(pl))
+            got = rows.get((hd, pl))
+            if not got:
+                bad = 'no accepting path for header-crc=%s payload-crc=%s' % (hd, pl)
+                continue
+            for g in got:
+                if g[:3] != want_row:
+                    bad = ('with header-crc=%s payload-crc=%s the receiver reads the header checksum at word %s, the payload checksum at word %s and starts '
+                           'the payload at word %s; the packed layout is %s / %s / %s' % (hd, pl, g[0], g[1], g[2], want_row[0], want_row[1], want_row[2]))
+                elif (g[3] or 12) < 2 * want_row[2]:
+                    bad = 'with header-crc=%s payload-crc=%s a frame of %s octets is accepted although the header needs %d' % (hd, pl, g[3], 2 * want_row[2])
+    ck.verdict(bad is None, 'C07.b', 'parse_header:layout', R.where('parse_header'),
+               'for all four combinations of the checksum option bits the optional words are read packed behind word 5 and the frame is long enough' if bad is None else bad)
     # where the header crc is stored / read: word 6
     okpos = False
     for p in enc:
